@@ -116,6 +116,7 @@ type arena struct {
 	Proofs  []*multiproof.MultiProof // honest proofs for (Commits[k], Zs[k]), (k, k+1)
 	ProofBytes [][]byte
 	ProofYs [][]*fr.Element
+	ProofZs [][]uint8
 	IPAProof ipa.IPAProof
 	IPAEval fr.Element
 	IPARes  fr.Element
@@ -222,6 +223,7 @@ func buildArena(seed uint64) *arena {
 		a.ProofBytes = append(a.ProofBytes, b.Bytes())
 		y0, y1 := a.Polys[k][zs[0]], a.Polys[k+1][zs[1]]
 		a.ProofYs = append(a.ProofYs, []*fr.Element{&y0, &y1})
+		a.ProofZs = append(a.ProofZs, append(make([]uint8, 0, 8), zs...)) // spare capacity on purpose
 	}
 	a.IPAEval = FrFromBig(r.Scalar())
 	ip, err := ipa.CreateIPAProof(common.NewTranscript("arena-ipa"), cfg, *a.Commits[0], a.Polys[0], a.IPAEval)
@@ -556,7 +558,7 @@ func doCall(a *arena, c C13Call) (out string, failed bool) {
 		k := pick(nProofs, c.A)
 		Cs := []*banderwagon.Element{a.Commits[k], a.Commits[k+1]}
 		ys := a.ProofYs[k]
-		zs := []uint8{a.Zs[k], a.Zs[k+1]}
+		zs := a.ProofZs[k] // caller-owned
 		if c.Kind == "verify-wrong" {
 			ys = []*fr.Element{a.ProofYs[k][1], a.ProofYs[k][0]}
 			if ys[0].Equal(ys[1]) {
